@@ -71,8 +71,9 @@ type vC04HistPlan struct {
 	Name     string `json:"name"`
 	TTL      uint32 `json:"ttl"`
 	ExtraTTL uint32 `json:"extra_ttl"` // 0: no additional section
-	How      int    `json:"how"`       // 0 SetFromResponseWithKey, 2 client path, 3 Cache.Set, 4 ReplaceIfCurrent
+	How      int    `json:"how"`       // 0 SetFromResponseWithKey, 1 SetFromResponseScoped, 2 client path, 3 Cache.Set, 4 ReplaceIfCurrent, 5 client path with ECS (scoped)
 	LeaseMs  int64  `json:"lease_ms"`  // 0: no lease
+	EcsMaxS  int64  `json:"ecs_max_s"` // the operator's ECS cap (cache_limit_ttl) in seconds, 0: none
 	// Neg != "": a DNSSEC-signed negative answer instead ("nxdomain" | "nodata"): SOA with TTL and
 	// MINIMUM = TTL, its RRSIG ending SoaSigS seconds from now, one NSEC with NsecTTL whose RRSIG
 	// ends NsecSigS seconds from now (the signature windows are wall-clock terms of the admission)
@@ -198,7 +199,7 @@ func vC04CaseHist(out *vC04Out, r *rand.Rand, plan *vC04HistPlan) {
 	ecsChoices := []time.Duration{0, 0, 3 * time.Second, 8 * time.Second, 30 * time.Second, 600 * time.Second, 48 * time.Hour}
 	ecsMax := ecsChoices[r.Intn(len(ecsChoices))]
 	if plan != nil {
-		ecsMax = 0
+		ecsMax = time.Duration(plan.EcsMaxS) * time.Second
 	}
 	env := vC04NewEnv(0, ecsMax, 600)
 	defer env.close()
